@@ -176,6 +176,93 @@ def kernel_part(ck: Check):
     ck.part("kernels_exact", homological_monomials=n_hom, selection_monomials=n_sel, exp_instances=n_exp, expansion_instances=n_coord)
 
 
+class _ModesPoint:
+    def __init__(self, lam, w1, w2):
+        self.linear_modes = (lam, w1, w2)
+
+
+def driver_part(ck: Check):
+    """LieDriver.tla shapes (which homogeneous blocks are zero / only kept terms / contain eliminable terms) turned into
+    concrete Hamiltonians and pushed through the real partial and full _lie_transform loops."""
+    from hiten.algorithms.hamiltonian.center._lie import _lie_expansion
+    from hiten.algorithms.hamiltonian.center._lie import _lie_transform as lie_partial
+    from hiten.algorithms.hamiltonian.normal._lie import _lie_transform as lie_full
+    from hiten.algorithms.polynomial.base import _init_index_tables
+    r = tlc(SPEC / "algo" / "MCLieDriver.tla", SPEC / "cfg" / "LieDriver.cfg", timeout=600)
+    ck.model("LieDriver", r)
+    rb = tlc(SPEC / "algo" / "MCLieDriver.tla", SPEC / "cfg" / "LieDriver.break.cfg", timeout=600)
+    if rb.invariant_violated != "NothingBadSurvives":
+        raise MachineryError("LieDriver non-vacuity variant (break instead of continue) was not refuted by TLC")
+    shapes = [x["shape"] for x in r.printed() if "shape" in x]
+    if len(shapes) < 20:
+        raise MachineryError("LieDriver emitted too few shapes")
+    N = 5
+    psi, clmo = _init_index_tables(N)
+    lam, w1, w2 = 2.0, math.sqrt(2.0), math.sqrt(5.0)
+    pt = _ModesPoint(lam, w1, w2)
+    rng = np.random.default_rng(12345)
+    n = 0
+    for sh in shapes:
+        kinds = sh if isinstance(sh, dict) else {str(i + 3): k for i, k in enumerate(sh)}
+        H = {}
+        H[(1, 0, 0, 1, 0, 0)] = lam
+        H[(0, 1, 0, 0, 1, 0)] = 1j * w1
+        H[(0, 0, 1, 0, 0, 1)] = 1j * w2
+        for d in range(3, N + 1):
+            kind = kinds[str(d)]
+            if kind == "zero":
+                continue
+            for k in pu.enum(d):
+                k = tuple(k)
+                if kind == "good" and k[0] != k[3]:
+                    continue
+                if rng.random() < 0.35:
+                    H[k] = complex(rng.normal(), rng.normal()) * 0.3
+            if kind == "bad" and not any(sum(k) == d and k[0] != k[3] for k in H):
+                H[(d, 0, 0, 0, 0, 0)] = 0.25
+            if kind == "good" and not any(sum(k) == d for k in H):
+                H[(1, d - 2, 0, 1, 0, 0)] = 0.5
+        Hl = dict_to_list(H, N)
+        ck.count(("lie-driver", json.dumps(kinds, sort_keys=True)), "bad" in kinds.values())
+        n += 1
+        for name, fn, survive in (("partial", lie_partial, lambda k: k[0] == k[3]),
+                                  ("full", lie_full, lambda k: k[0] == k[3] and k[1] == k[4] and k[2] == k[5])):
+            trans, G, elim = fn(pt, [np.asarray(b).copy() for b in Hl], psi, clmo, N)
+            got = list_to_dict(trans)
+            big = max(abs(v) for v in got.values())
+            worst = max([abs(v) / big for k, v in got.items() if sum(k) >= 3 and not survive(k)] + [0.0])
+            if worst > 1e-10:
+                ck.violation(f"_lie_transform|{name}|eliminable-terms-survive",
+                             f"{name} normalisation of a Hamiltonian with block shape {kinds}: a monomial that must be eliminated survives "
+                             f"with relative size {worst:.2e}", {"shape": kinds, "form": name})
+                continue
+            if name == "partial":
+                # H_new = H_old o Phi with the library's own coordinate change, two-point form
+                from numba.typed import List as _NL
+                Gl = _NL()
+                for b in G:
+                    Gl.append(np.asarray(b, dtype=np.complex128))
+                fwd = _lie_expansion(Gl, N, psi, clmo, 1e-30, inverse=False, sign=None, restrict=False)
+                d0 = rng.normal(size=6) + 1j * rng.normal(size=6)
+                d0 /= np.linalg.norm(d0)
+                defs = []
+                newl = _NL()
+                for b in trans:
+                    newl.append(np.asarray(b, dtype=np.complex128))
+                for r_ in (0.01, 0.02, 0.04):
+                    z = r_ * d0
+                    Pz = np.array([eval_list(fwd[i], z, clmo) for i in range(6)])
+                    defs.append(abs(eval_list(newl, z, clmo) - eval_list(Hl, Pz, clmo)))
+                ex = 0.0
+                for a, b in zip(defs, defs[1:]):
+                    if a > 1e-12:
+                        ex = max(ex, max(0.0, abs(math.log2(b / a) - (N + 1)) - 2.0))
+                if ex > 0:
+                    ck.violation("_lie_transform|partial|not-composition-with-own-coordinate-change",
+                                 f"shape {kinds}: |H_new(z) - H_old(Phi(z))| = {defs} does not scale like r^{N + 1}", {"shape": kinds})
+    ck.part("lie_driver", shapes=len(shapes), runs=n)
+
+
 def eval_list(polys, z, clmo):
     from hiten.algorithms.polynomial.operations import _polynomial_evaluate
     return _polynomial_evaluate(polys, np.asarray(z, dtype=np.complex128), clmo)
@@ -198,6 +285,7 @@ def pipeline_part(ck: Check, rnd):
         psi, clmo = _init_index_tables(N)
         enc = _create_encode_dict_from_clmo(clmo)
         H_old = L.hamiltonian(N, "complex_modal").poly_H
+        H_old_copy = [np.asarray(b).copy() for b in H_old]
         H_new = L.hamiltonian(N, "complex_partial_normal").poly_H
         # L.generating_functions(N) returns one object per degree block of the partial generator (name L<i>_G<deg>_<N>)
         from numba.typed import List as _NList
@@ -254,6 +342,18 @@ def pipeline_part(ck: Check, rnd):
         except Exception as ex:
             ck.violation("pipeline|complex_full_normal-raises", f"{label}: {ex!r}"[:300], {"system": sname, "L": li, "N": N})
             continue
+        # history: requesting the full normal form must not disturb what the pipeline serves for the other forms
+        H_old_again = L.hamiltonian(N, "complex_modal").poly_H
+        drift = max(float(np.max(np.abs(np.asarray(a) - np.asarray(b)))) if np.asarray(a).size else 0.0 for a, b in zip(H_old_again, H_old_copy))
+        t3 = cs.trace(label + "|after-full", {"cached_modal_unchanged": -130, "composition_law_excess": -100},
+                      {"system": sname, "L": li, "N": N, "form": "partial-after-full"})
+        cs.obs(t3, "cached_modal_unchanged", drift)
+        comp2 = []
+        for r in (0.01, 0.02, 0.04, 0.08):
+            z = r * d0
+            Pz = np.array([eval_list(fwd[i], z, clmo) for i in range(6)])
+            comp2.append(abs(eval_list(L.hamiltonian(N, "complex_partial_normal").poly_H, z, clmo) - eval_list(H_old_again, Pz, clmo)))
+        cs.obs(t3, "composition_law_excess", excess(comp2, N + 1))
         t2 = cs.trace(label + "|full", {"support_full": -100}, {"system": sname, "L": li, "N": N, "form": "full"})
         bigf = max(float(np.max(np.abs(b))) for b in H_full if np.asarray(b).size)
         worst = 0.0
@@ -278,6 +378,7 @@ def main(tier=None, replay=None):
         print("re-run ./check C08 to re-evaluate (cases are deterministic)")
         return 0
     kernel_part(ck)
+    driver_part(ck)
     pipeline_part(ck, rnd)
     ck.cov["rule"] = ("kernel instances emitted by TLC: every monomial of degree 3..MaxHomDeg (homological), every monomial up to SelDeg "
                       "(selection predicates), (F, G, N) Lie-series instances and multi-generator coordinate expansions; pipeline cases = "
